@@ -5,7 +5,7 @@ SPEC = {
                  "text": "Theorems in coq/theories/ConfigWF.v for ALL schemas (distinct keys per level), all states, all addressed paths, all argument values of every shape and all finite histories: a freshly built configuration is well-formed when declared defaults are valid (build_cfg_wf); every operation -- assignment by attribute / dotted path / constructor keyword (scalar, map, list of maps), load_tree, reset, append / item assignment on lists of configurations, validation -- accepted or rejected, preserves well-formedness at every depth including list items (step_wf), hence every reachable state is well-formed (run_wf, reachable_wf); reading a leaf right after an accepted assignment yields the field's validated (normalised) value (set_get) and the assignment changes no other slot, mark or identity (store_spec); a rejected one changes nothing (set_value_err). The leaf hypothesis 'an accepted value meets the declared constraints' is discharged for the concrete IntField/StringField/BoolField model (inst_validate_sound, declarative inst_meets) and is C05's theorem for the other classes; in-place mutation of typed list/dict values is C17's all_valid invariant; command-line overrides assign through the same validated route (C16_override_applies). Tied to the code by comparing the full state after every step of random histories on real objects and re-checking every held value against an independent re-statement of the declared constraints.",
                  "note": "Trusted: Coq kernel + vm_compute; harness. Open finding F29 (a Config object of a foreign schema is accepted for a sub-configuration slot; assigning Config objects is outside the model's operation alphabet, confirmed by a direct probe on every run). No axioms.",
                  "design_ref": "DESIGN.md section 6 C01"},
-    "streams": ["co01", "proxyops"],
+    "streams": ["co01", "proxyops", "configfields"],
     # of the typed list/dict stream only the clauses that are C01's: a held or returned item that is not a validated one,
     # an unacceptable item accepted, an inserting entry point without override (equivalence with the built-ins is C17's)
     "stream_filters": {"proxyops": r"not a validated|unvalidated|unacceptable .* was accepted|no longer a typed|puts caller-supplied items"},
